@@ -53,10 +53,10 @@ func run(c *lib.Ctx) error {
 	for _, b := range bounds {
 		bs = append(bs, strings.ReplaceAll(string(b.cfg()[:strings.IndexByte(string(b.cfg()), '\n')]), `"`, "'"))
 	}
-	c.Set("bounds", map[string]any{"exhaustive": bs, "random_worlds": c.Pick(100, 2000), "random_modules": "1..6", "random_ops": "1..8"})
+	c.Set("bounds", map[string]any{"exhaustive": bs, "random_worlds": c.Pick(150, 3000), "random_modules": "1..6", "random_ops": "1..8"})
 	seen := map[string]bool{}
 	for _, b := range bounds {
-		r, err := c.TLC(fmt.Sprintf("MCModules(%s,%d,%d,%d)", b.family, b.nmods, b.maxImp, b.maxOps), lib.TLCRun{Dir: dir, Module: "MCModules", Workers: 6, Timeout: 13 * time.Minute, HeapGB: 8,
+		r, err := c.TLC(fmt.Sprintf("MCModules(%s,%d,%d,%d)", b.family, b.nmods, b.maxImp, b.maxOps), lib.TLCRun{Dir: dir, Module: "MCModules", Workers: 4, Timeout: 13 * time.Minute, HeapGB: 8,
 			Files: map[string][]byte{"MCModules.cfg": b.cfg()}})
 		if err != nil {
 			return err
@@ -85,13 +85,13 @@ func run(c *lib.Ctx) error {
 		}
 		c.Logf("model %s: %d distinct states, %d transitions, %d behaviours", b.family, r.Distinct, r.Generated, len(behs))
 		c.Sample(map[string]any{"files": behs[0].files(), "ops": behs[0].opTexts()})
-		lib.Parallel(len(behs), 6, func(i int) { replayBehaviour(c, behs[i]) })
+		lib.Parallel(len(behs), 4, func(i int) { replayBehaviour(c, behs[i]) })
 		c.AddTraces(len(behs))
 	}
 	c.Set("exhaustive", true)
 
 	// ---- V
-	n := c.Pick(100, 2000)
+	n := c.Pick(150, 3000)
 	rng := newRand(c.Seed)
 	groups := make([][]Case, n)
 	worlds := make([][]Mod, n)
@@ -99,7 +99,7 @@ func run(c *lib.Ctx) error {
 	for i := 0; i < n; i++ {
 		worlds[i], opss[i] = RandomWorld(rng)
 	}
-	lib.Parallel(n, 6, func(i int) { groups[i] = record(c, worlds[i], opss[i]) })
+	lib.Parallel(n, 4, func(i int) { groups[i] = record(c, worlds[i], opss[i]) })
 	c.Sample(groups[0][:min(3, len(groups[0]))])
 	if os.Getenv("VERIF_CORRUPT") == "v" {
 		e := &groups[1][len(groups[1])-1]
@@ -114,7 +114,7 @@ func run(c *lib.Ctx) error {
 }
 
 func judge(c *lib.Ctx, dir string, groups [][]Case) error {
-	bad, err := lib.JudgeGroups(c, "TraceModules", dir, "TraceModules", groups, 6, 12*time.Minute)
+	bad, err := lib.JudgeGroups(c, "TraceModules", dir, "TraceModules", groups, 4, 12*time.Minute)
 	if err != nil {
 		return err
 	}
